@@ -249,6 +249,19 @@ func (c *ioConn) tick() {
 func (c *ioConn) Read(p []byte) (int, error) {
 	c.mu.Lock()
 	if len(c.pending) > 0 {
+		c.mu.Unlock()
+		// the rest of the split read "has not arrived yet": the reader waits, the context ends,
+		// the transport tears the connection down, and the read fails
+		for i := 0; i < 200 && !c.k.hasFired(); i++ {
+			time.Sleep(50 * time.Microsecond)
+		}
+		time.Sleep(300 * time.Microsecond)
+		c.mu.Lock()
+		if c.k.hasFired() {
+			c.pending = nil
+			c.mu.Unlock()
+			return 0, net.ErrClosed
+		}
 		n := copy(p, c.pending)
 		c.pending = c.pending[n:]
 		c.mu.Unlock()
